@@ -130,6 +130,10 @@ func AlertIDText(e Ent) string {
 	if e.RawID != "" {
 		return e.RawID
 	}
+	if e.Elev.IsSome() {
+		x := e.Elev.Val()
+		return ElevStations[x.St] + ElevPlats[x.Plat] + "#EL" + Elevators[x.El]
+	}
 	return tokStr(AlertIDs, e.ID)
 }
 
@@ -226,7 +230,8 @@ func Entity(i int, e Ent) *gtfsrt.FeedEntity {
 		}
 		if e.Mercury.IsSome() {
 			c, u := Timestamps[e.Mercury.Val()], Timestamps[e.Mercury.Val()]+60
-			proto.SetExtension(al, gtfsrt.E_MercuryAlert, &gtfsrt.MercuryAlert{CreatedAt: &c, UpdatedAt: &u})
+			at := "Planned Work"
+			proto.SetExtension(al, gtfsrt.E_MercuryAlert, &gtfsrt.MercuryAlert{CreatedAt: &c, UpdatedAt: &u, AlertType: &at})
 		}
 		fe.Alert = al
 	default:
